@@ -16,8 +16,7 @@ LANES = 16
 DEFAULT_SEED = 20260928
 
 
-class RunTimeout(Exception):
-    pass
+from .rig import RunTimeout  # noqa: E402  (BaseException subclass; see rig.py)
 
 
 def h64(*parts):
